@@ -6,14 +6,14 @@ PID = "C06"
 
 
 def scenarios(rng, tier):
-    sc = T.fam_auth(rng) + T.fam_auth(rng, cfg=T.CFG_F) + T.fam_breach(rng)[:6] + T.fam_late(rng)[::4]
+    sc = T.fam_auth(rng) + T.fam_auth(rng, cfg=T.CFG_F) + T.fam_breach(rng)[:6] + T.fam_late(rng)[::4] + T.fam_shared(rng)
     sc += T.fam_random(rng, 12 if tier == "quick" else 150)
     if tier == "thorough":
         sc += T.fam_auth(rng, cfg=T.CFG_A) + T.fam_breach(rng) + T.fam_expiry(rng, cfgs=(T.CFG_B,))
     return sc
 
 
-RULE = 'every endpoint x signature class (valid, valid for another message, unregistered key, truncated, bit-flipped, not zbase32, empty) x user state (registered, expired, purged, never registered); two users on overlapping locators; random histories with bad signatures mixed in'
+RULE = 'every endpoint x signature class (valid, valid for another message, unregistered key, truncated, bit-flipped, not zbase32, empty) x user state (registered, expired, purged, never registered); two / three users on the same locator with different blobs (other penalty, other size, undecryptable) in both submission orders, dispute confirmed afterwards or already in the cache; random histories with bad signatures mixed in'
 
 
 def main(tier, replay=None):
